@@ -91,13 +91,16 @@ vars == <<cs>>
 Init == cs = [kind |-> "init"]
 PickA == \E ch \in ChainsA, k \in 1..Len(TRCsA), t \in Times :
             cs' = [kind |-> "verify", chain |-> ch, trc |-> k, t |-> t]
-PickB == \E i \in 1..Len(Timelines), D \in ChainSetsB, F \in ChainSetsB :
+\* qv: the validity instant of the chain query (0 = no validity in the query); whatever is asked for, a
+\* chain is handed out only if it verifies NOW
+PickB == \E i \in 1..Len(Timelines), D \in ChainSetsB, F \in ChainSetsB, qv \in {0, -10, 10} :
             /\ Cardinality(D) + Cardinality(F) <= 2
-            /\ cs' = [kind |-> "provider", tl |-> i, db |-> D, remote |-> F]
+            /\ qv # 0 => Cardinality(D) + Cardinality(F) = 1
+            /\ cs' = [kind |-> "provider", tl |-> i, db |-> D, remote |-> F, qv |-> qv]
 \* TRC update during operation: the store holds S1 and the chains D; chains are requested, then S2
 \* (time line tl) arrives through NotifyTRC, then chains are requested again
 PickH == \E i \in {k \in 1..Len(Timelines) : Timelines[k].two}, D \in ChainSetsB :
-            cs' = [kind |-> "history", tl |-> i, db |-> D, remote |-> {}]
+            cs' = [kind |-> "history", tl |-> i, db |-> D, remote |-> {}, qv |-> 0]
 Next == cs.kind = "init" /\ (PickA \/ PickB \/ PickH)
 Spec == Init /\ [][Next]_vars
 
@@ -135,7 +138,7 @@ SetSeq(S) == IF S = {} THEN <<>> ELSE
              IN f(S)
 Emit == cs.kind # "init" =>
           PrintT(<<"SCN", ToJson(IF cs.kind = "verify" THEN cs
-                                  ELSE [kind |-> cs.kind, tl |-> Timelines[cs.tl], db |-> SetSeq(cs.db), remote |-> SetSeq(cs.remote)])>>)
+                                  ELSE [kind |-> cs.kind, tl |-> Timelines[cs.tl], db |-> SetSeq(cs.db), remote |-> SetSeq(cs.remote), qv |-> cs.qv])>>)
 ASSUME PrintT(<<"POOLA", ToJson(PoolA)>>) /\ PrintT(<<"POOLB", ToJson(PoolB)>>)
           /\ PrintT(<<"TRCSA", ToJson([i \in 1..Len(TRCsA) |-> [TRCsA[i] EXCEPT !.roots = SetSeq(@)]])>>)
 =============================================================================
